@@ -107,8 +107,10 @@ def interp(skind, series, pos, neg, t, s, mode, dt):
     return at(pos, c) * math.exp(-el / TD) - at(neg, c) * math.exp(-el / TR)
 
 
-def shard(conn, skind, dt, maxk, fractional, T, F=2, only_assign=None, only_clear=(), tol=0.0, alphabet_override=None, reassign_at=None):
-    """reassign_at = r: after r steps the per-synapse delays are replaced through the public setter (``conn.delay = D2``, the way
+def shard(conn, skind, dt, maxk, fractional, T, F=2, only_assign=None, only_clear=(), tol=0.0, alphabet_override=None, reassign_at=None, mode="previous", dt_from=None):
+    """mode: the synapse's (spike) interpolation mode for off-grid delays; dt_from: both connections are constructed with this
+    step time and then assigned ``dt`` through the public setter before the run (the records must follow).
+    reassign_at = r: after r steps the per-synapse delays are replaced through the public setter (``conn.delay = D2``, the way
     an updater applies learned delays) by the assignment rotated one place through the alphabet; from then on the output is the
     shift by the *new* delays of the same undelayed history."""
     tally = Tally()
@@ -131,8 +133,7 @@ def shard(conn, skind, dt, maxk, fractional, T, F=2, only_assign=None, only_clea
         x = torch.tensor([h[t] for h in hs], dtype=torch.bool)
         xs.append(x.reshape(B, 1, CONV_GEOM[conn][0], CONV_GEOM[conn][1]) if isconv else x)
     cfg = {"conn": conn, "synapse": skind, "dt": dt, "max_delay": maxdelay, "maxk": maxk, "fractional": fractional, "T": T, "F": F,
-           "batch=histories": B, "interp_tol": tol, "delay_alphabet": alphabet_override}
-    mode = "previous"
+           "batch=histories": B, "interp_tol": tol, "delay_alphabet": alphabet_override, "interp_mode": mode, "constructed_with_dt": dt_from}
     for assign in itertools.product(alphabet, repeat=len(pos)):
         if only_assign is not None and list(assign) != list(only_assign):
             continue
@@ -147,8 +148,11 @@ def shard(conn, skind, dt, maxk, fractional, T, F=2, only_assign=None, only_clea
             case = {**cfg, "delays_in_steps": list(assign), "clear_before_step": clear_at, "reassign_at": reassign_at}
             tally.add("evaluations")
             try:
-                cd = build(conn, skind, dt, maxdelay, B, W, D, mode, tol)
-                cu = build(conn, skind, dt, None, B, W, D, mode, tol)
+                cd = build(conn, skind, dt if dt_from is None else dt_from, maxdelay, B, W, D, mode, tol)
+                cu = build(conn, skind, dt if dt_from is None else dt_from, None, B, W, D, mode, tol)
+                if dt_from is not None:
+                    cd.dt = dt
+                    cu.dt = dt
             except Exception as ex:
                 tally.violation(f"exception:construct:{conn}:{skind}:{type(ex).__name__}", case, repr(ex))
                 return tally
@@ -294,6 +298,15 @@ def run(rep):
         for skind in ("delta", "exp") if quick else ("delta", "deltaplus", "exp", "dexp"):
             for r in (1, 2):
                 jobs.append((shard, (conn, skind, 1.0, 2, False, 3 if quick else 4, 1 if conn == "conv" else 2, None, (), 0.0, None, r)))
+    # 'nearest' interpolation of the spike history at quarter-step delays (no ties): currents and spikes have separate modes
+    for conn in ("direct", "lateral"):
+        for skind in ("delta", "exp", "dexp"):
+            jobs.append((shard, (conn, skind, 1.0, 2, True, T, 2, None, (), 0.0, (0, 0.25, 0.75, 1.25), None, "nearest")))
+    # step time assigned through the setter after construction, with and without a change of the record size
+    for skind in ("delta", "exp"):
+        jobs.append((shard, ("direct", skind, 0.5, 2, False, T, 2, None, (), 0.0, None, None, "previous", 1.0)))
+        jobs.append((shard, ("direct", skind, 0.75, 2, False, T, 2, None, (), 0.0, (0, 1), None, "previous", 1.0)))
+        jobs.append((shard, ("dense", skind, 1.3, 2, False, T, 2, None, (), 1e-6, (0, 1), None, "previous", 1.0)))
     # a 2x2 kernel: row/column order of the per-kernel-element delays matters (2x3 input, 64 input letters -> shorter histories)
     for skind in ("delta", "exp") if quick else ("delta", "deltaplus", "exp", "dexp"):
         jobs.append((shard, ("conv22", skind, 1.0, 1 if quick else 2, False, 2, 1)))
@@ -325,5 +338,6 @@ def run(rep):
 def replay(case):
     t = shard(case["conn"], case["synapse"], case["dt"], case["maxk"], case["fractional"], case["T"], case.get("F", 2),
               only_assign=case["delays_in_steps"], only_clear=case["clear_before_step"], tol=case.get("interp_tol", 0.0), reassign_at=case.get("reassign_at"),
+              mode=case.get("interp_mode", "previous"), dt_from=case.get("constructed_with_dt"),
               alphabet_override=case.get("delay_alphabet"))
     return {"violations": [[v["key"], v["message"]] for v in t.violations]}
